@@ -13,7 +13,7 @@
 //	        mtime). The direct oracle evaluates the property on these records; every
 //	        history with its final directory is also written as a Coq term and compared
 //	        with the GenFS model inside Coq by bin/check.
-//	witness the recorded finding (openapi:summary + swagger:summary on one expression).
+//	probe   API/service/method-level metadata (tags, extensions, both summary spellings).
 //	search  (-search) more repetitions on designs loaded with metadata, used by bin/check
 //	        when a proof obligation broke and the normal streams found nothing.
 package main
@@ -64,7 +64,7 @@ type FileFlag struct {
 
 // Failure input written to result.json / replay files.
 type Input struct {
-	Stream  string     `json:"stream"` // tierA | cli | witness | search
+	Stream  string     `json:"stream"` // tierA | cli | metaprobe | search
 	Design  *dg.Design `json:"design,omitempty"`
 	Name    string     `json:"name,omitempty"`
 	History []string   `json:"history,omitempty"`
@@ -992,69 +992,12 @@ func metaRich(d *dg.Design) *dg.Design {
 	return c
 }
 
-// ------------------------------------------------------------------ witness (known finding)
-
-// witnessSummaryAliases: both openapi:summary and swagger:summary on one method. The
-// OpenAPI builders range over the Meta map and keep the first / last of the two.
-func witnessSummaryAliases(reps int) {
-	build := func() {
-		openapi.Definitions = make(map[string]*openapi.Schema)
-		dg.ResetGoa()
-		ok := eval.Execute(func() {
-			dsl.API("w", func() {})
-			dsl.Service("s", func() {
-				dsl.Method("m", func() {
-					dsl.Meta("openapi:summary", "ONE")
-					dsl.Meta("swagger:summary", "TWO")
-					dsl.Result(dsl.String)
-					dsl.HTTP(func() { dsl.GET("/") })
-				})
-			})
-		}, nil)
-		if !ok {
-			panic(eval.Context.Errors)
-		}
-		if err := eval.RunDSL(); err != nil {
-			panic(err)
-		}
-	}
-	distinct := map[string]map[string]bool{}
-	for k := 0; k < reps; k++ {
-		build()
-		fs, err := httpcodegen.OpenAPIFiles(expr.Root)
-		if err != nil {
-			panic(err)
-		}
-		for _, f := range fs {
-			var buf bytes.Buffer
-			for _, s := range f.SectionTemplates {
-				if err := s.Write(&buf); err != nil {
-					panic(err)
-				}
-			}
-			if distinct[f.Path] == nil {
-				distinct[f.Path] = map[string]bool{}
-			}
-			distinct[f.Path][sha(buf.Bytes())] = true
-		}
-	}
-	count("witness_summary_alias_repetitions")
-	var differing []string
-	for _, p := range vh.SortedKeys(distinct) {
-		if len(distinct[p]) > 1 {
-			differing = append(differing, filepath.ToSlash(p))
-		}
-	}
-	if len(differing) > 0 {
-		fail("summary-meta-alias-order", "a method carrying both Meta(\"openapi:summary\", \"ONE\") and Meta(\"swagger:summary\", \"TWO\") gets either summary from run to run: "+strings.Join(differing, ", ")+" differ between repetitions",
-			Input{Stream: "witness", Name: "summary-aliases", Detail: map[string]any{"repetitions": reps, "files_with_more_than_one_rendering": differing,
-				"design": "API(\"w\"); Service(\"s\", Method(\"m\", Meta(\"openapi:summary\",\"ONE\"), Meta(\"swagger:summary\",\"TWO\"), Result(String), HTTP(GET(\"/\"))))"}})
-	}
-}
+// ------------------------------------------------------------------ metadata probe
 
 // metaProbe: metadata at the API, service and method level (designgen descriptions only
 // carry attribute metadata): several openapi:tag:* keys, extensions, an operation id
-// format, one summary key, two response cookies, headers. The OpenAPI files are rendered
+// format, both spellings of the summary key with different values, two response
+// cookies, headers. The OpenAPI files are rendered
 // in memory `reps` times from fresh evaluations; every rendering must be identical.
 func metaProbe(reps int) {
 	build := func() {
@@ -1068,6 +1011,11 @@ func metaProbe(reps int) {
 				dsl.Meta("openapi:extension:x-api-one", `{"a":1}`)
 				dsl.Meta("openapi:extension:x-api-two", "two")
 				dsl.Meta("openapi:operationId", "{service}.{method}")
+				// both spellings of the summary key with different values at every level (API,
+				// service, method, file server): once order-dependent (fixed: openapi:summary
+				// wins), now part of the ordinary stream
+				dsl.Meta("swagger:summary", "api summary, legacy key")
+				dsl.Meta("openapi:summary", "api summary")
 			})
 			acc := dsl.ResultType("application/vnd.probe.acc", func() {
 				dsl.TypeName("Acc")
@@ -1087,8 +1035,11 @@ func metaProbe(reps int) {
 					dsl.Meta("openapi:tag:Epsilon:desc", "eps")
 					dsl.Meta("openapi:tag:Alpha:desc", "alpha from "+svc)
 					dsl.Meta("openapi:extension:x-svc", svc)
+					dsl.Meta("openapi:summary", "service summary")
+					dsl.Meta("swagger:summary", "service summary, legacy key")
 					dsl.Method("get", func() {
-						dsl.Meta("openapi:summary", "one summary only")
+						dsl.Meta("openapi:summary", "ONE")
+						dsl.Meta("swagger:summary", "TWO")
 						dsl.Meta("openapi:tag:Zeta")
 						dsl.Meta("openapi:tag:Eta")
 						dsl.Meta("openapi:extension:x-m1", "1")
@@ -1111,8 +1062,13 @@ func metaProbe(reps int) {
 							dsl.Response("nope", 404)
 						})
 					})
+					dsl.Method("plain", func() {
+						dsl.Result(dsl.String)
+						dsl.HTTP(func() { dsl.GET("/" + svc + "/plain") })
+					})
 					dsl.Files("/static/"+svc+".json", "public/"+svc+".json", func() {
 						dsl.Meta("openapi:summary", "a file")
+						dsl.Meta("swagger:summary", "a file, legacy key")
 						dsl.Meta("openapi:tag:Files")
 					})
 				})
@@ -1223,15 +1179,14 @@ func main() {
 			fmt.Println("replay file unreadable:", err)
 			os.Exit(2)
 		}
-		if rp.Input.Stream == "metaprobe" {
+		if rp.Input.Stream == "metaprobe" || rp.Input.Stream == "witness" {
 			metaProbe(400)
 			finish(*out, 400, 1, "replay of the API/service/method metadata probe", nil)
 			return
 		}
-		if rp.Input.Stream == "witness" || rp.Input.Design == nil {
-			witnessSummaryAliases(200)
-			finish(*out, 1, 1, "replay of the summary-alias witness", nil)
-			return
+		if rp.Input.Design == nil {
+			fmt.Println("replay file has neither a design nor a probe stream")
+			os.Exit(2)
 		}
 		designs = []*dg.Design{rp.Input.Design}
 		nA, repsA, nCLI, procs = 1, 12, 1, 3
@@ -1447,17 +1402,15 @@ func main() {
 	}
 
 	res.Extra["seconds_cli"] = int(time.Since(t0).Seconds())
-	// ---- witness of the recorded finding
+	// ---- metadata probe (API/service/method-level metadata, incl. both summary spellings)
 	if *replay == "" {
-		witnessSummaryAliases(120)
-		probeReps := 60
+		probeReps := 100
 		if *search || *tier == "thorough" {
 			probeReps = 600
 		}
 		metaProbe(probeReps)
-		evaluations += 120 + probeReps
+		evaluations += probeReps
 		distinct.Add("metaprobe")
-		distinct.Add("witness")
 	}
 
 	res.Extra["printer_checked"] = printerChecked
@@ -1472,7 +1425,7 @@ func main() {
 	if err := os.WriteFile(filepath.Join(*out, "cases_fs.txt"), []byte(strings.Join(cases, "\n")+"\n"), 0o644); err != nil {
 		panic(err)
 	}
-	finish(*out, evaluations, len(distinct), fmt.Sprintf("tier A: %d fixed feature designs (metadata with several struct:field:*/struct:tag:* keys per attribute, recursive result types with views and collections, the four security kinds, two services, file server, six errors of six different types on one status code plus four on another, Extend, defaults, validations; each generated 10 (quick) / 30 (thorough, search) more times, gen only) then designgen.Random designs (every 4th loaded with metadata), each evaluated through the real DSL and generated (gen + example) %d times in-process into fresh directories; CLI: the first %d generated designs printed as design packages, histories %v (delete = some but not all example files; stray = a file in every directory below gen/ plus new directories named goa*, tmp, design, gen, cmd, .hidden), %d fresh-process runs per history on one output directory each, service/API names from a hostile-but-valid pool (goals, goa_admin, goa, gen, http, grpc, cli, cmd, tmp, design, example, x, fooBar, ...), API name == service name in the calc design; metadata probe: a design with API/service/method-level openapi:tag:*/extension/operationId metadata, two response cookies and file servers, OpenAPI files rendered in memory 60 (600 thorough) times from fresh evaluations; witness: 120 in-memory renderings of the OpenAPI files of the summary-alias design; evaluations = generator runs (tier A) + executed history steps (CLI) + witness renderings; distinct = distinct design descriptions per stream",
+	finish(*out, evaluations, len(distinct), fmt.Sprintf("tier A: %d fixed feature designs (metadata with several struct:field:*/struct:tag:* keys per attribute, recursive result types with views and collections, the four security kinds, two services, file server, six errors of six different types on one status code plus four on another, Extend, defaults, validations; each generated 10 (quick) / 30 (thorough, search) more times, gen only) then designgen.Random designs (every 4th loaded with metadata), each evaluated through the real DSL and generated (gen + example) %d times in-process into fresh directories; CLI: the first %d generated designs printed as design packages, histories %v (delete = some but not all example files; stray = a file in every directory below gen/ plus new directories named goa*, tmp, design, gen, cmd, .hidden), %d fresh-process runs per history on one output directory each, service/API names from a hostile-but-valid pool (goals, goa_admin, goa, gen, http, grpc, cli, cmd, tmp, design, example, x, fooBar, ...), API name == service name in the calc design; metadata probe: a design with API/service/method-level openapi:tag:*/extension/operationId metadata, two response cookies and file servers, both openapi:summary and swagger:summary with different values at API, service, method and file-server level, OpenAPI files rendered in memory 100 (600 thorough) times from fresh evaluations; evaluations = generator runs (tier A) + executed history steps (CLI) + probe renderings; distinct = distinct design descriptions per stream",
 		len(fixedDesigns()), repsA, nCLI, hs, procs), nil)
 }
 
